@@ -233,6 +233,27 @@ func (ps *parser) parsePostfix() (*Expr, error) {
 		e = &Expr{Kind: "str", Name: t.text}
 	case "id":
 		switch t.text {
+		case "let":
+			// let x := e :: body
+			nm := ps.next()
+			if nm.kind != "id" {
+				return nil, fmt.Errorf("let: name expected in %q", ps.src)
+			}
+			if err := ps.expect(":="); err != nil {
+				return nil, err
+			}
+			val, err := ps.parse(0)
+			if err != nil {
+				return nil, err
+			}
+			if err := ps.expect("::"); err != nil {
+				return nil, err
+			}
+			body, err := ps.parse(0)
+			if err != nil {
+				return nil, err
+			}
+			return &Expr{Kind: "let", Name: nm.text, Args: []*Expr{val, body}}, nil
 		case "forall", "exists":
 			q := &Expr{Kind: t.text}
 			for {
